@@ -5,5 +5,5 @@ CONSTANTS
   XN = {}
   Missing = "zz"
   FX = {}
-INVARIANTS InvCheckExact InvCheckCount InvCheckAllowed
+INVARIANTS InvCheckExact InvCheckCount InvCheckAllowed InvCheckBlame
 CHECK_DEADLOCK FALSE
